@@ -119,6 +119,34 @@ def run_impl(case):
         getattr(c, remover)(t, **kwargs)
         out["iter_after_remove"] = [oid(ident, x) for x in capped_iter(c, fuel)]
         out["len_after_remove"] = len(c) if len(out["iter_after_remove"]) < fuel else fuel
+        # a type-filtered iteration consumed partially, the container changed directly behind the
+        # element it is paused on, then the iteration resumed: it must go on over the members the
+        # container has NOW (the generator reads the successor link when it is resumed)
+        out["paused_ok"] = True
+        if isinstance(t, type) and t is not str and len(out["iter_after_remove"]) < fuel:
+            L = capped_iter(c, fuel)
+            gen2 = c.of_type(t)
+            first = next(gen2, None)
+            if first is not None:
+                i = next(k for k, x in enumerate(L) if x is first)
+                if i + 1 < len(L):
+                    c.remove(L[i + 1])
+                    expect = [x for x in L[i + 2 :] if isinstance(x, t)]
+                    what = "the element after the paused one was removed"
+                else:
+                    new = t(data=[None] * NATTR)
+                    c.append(new)
+                    expect = [new]
+                    what = "an element of the type was appended while the iteration was paused on the last one"
+                rest = []
+                for _ in range(fuel + 1):
+                    try:
+                        rest.append(next(gen2))
+                    except StopIteration:
+                        break
+                if len(rest) != len(expect) or any(a is not b for a, b in zip(rest, expect)):
+                    out["paused_ok"] = False
+                    out["paused_why"] = f"{what}: the resumed of_type() yielded {len(rest)} element(s), the container now has {len(expect)} member(s) of the type behind it"
     except Exception as e:
         return {"exc": type(e).__name__, "msg": str(e)[:200]}
     return out
@@ -152,6 +180,8 @@ def judge(case, obs, resp):
         return {"status": "oracle", "why": f"query raised {obs['exc']}: {obs['msg']}"}
     if not resp["model_holds"]:
         return {"status": "error", "why": "model violates Spec.C08.holds"}
+    if obs.get("paused_ok") is False and resp["holds"]:
+        return {"status": "oracle", "why": obs.get("paused_why", "paused iteration")}
     if not resp["holds"]:
         exp = resp["expected"]
         bad = [k for k in exp if exp[k] != obs.get(k)]
